@@ -234,6 +234,26 @@ ADDED2 = {
  "C20": "Temporary directory owned; scenario reconvert-in-place-vs-hit.",
 }
 
+ADDED3 = {
+ "C01": "Deviation polya-aligned (tail aligned as a terminal block, both strands).",
+ "C02": "Two-experiment YAML recount including the __not_aligned line.",
+ "C03": "Annotated gene ids sorting after novel_gene_ (annotated=3), structures J1/NC/MA/H3/W2/LQ, explicit --report_canonical auto.",
+ "C04": "Structure LQ (model rejected by the late MAPQ filter); GTF and model-reads table must agree.",
+ "C06": "Soft-masked reference stretch with reads whose junctions are displaced by 3/4 bp.",
+ "C07": "Double crashes including the first mutation points of the resumed run, also in the quick tier.",
+ "C09": "Read ids shared between the files of one experiment (all subsets of 4 ids x file order); non-ASCII tag values.",
+ "C10": "Experiment-name collisions in list and YAML syntax.",
+ "C12": "Record-level BAM split (secondary records in another file), equal-span primary/secondary records, part files with equal base names.",
+ "C13": "Multi-cluster runs over the annotation grammar x second-gene kinds.",
+ "C14": "Annotation with two introns within delta of each other (3-bp alternative acceptor); tiny terminal blocks.",
+ "C15": "History of three restarts from the same saved assignments; table-group and two-BAM reuse worlds; non-ASCII strings.",
+ "C16": "Upstream-extension invariance of the tail detector.",
+ "C17": "Chromosome names containing the separators of the id scheme (distributor and pipeline chain).",
+ "C18": "Strand votes: all 256 dinucleotide pairs x tail evidence, all ordered pairs of 17 site classes.",
+ "C19": "Isoform profiles through GeneInfo.from_models/from_model/database constructor with delta>0; overlaps_at_least predicates.",
+ "C20": "Scenarios other-annotation-into-cached-folder and bed-export-from-cached-db (real find_annotation), completeness flag of conversions.",
+}
+
 
 def main():
     props = [json.loads(l) for l in open(os.path.join(HERE, "properties.jsonl"))]
@@ -243,7 +263,7 @@ def main():
         pid = p["id"]
         if pid in CHECKS:
             level, tech, text, note, ref = CHECKS[pid]
-            text = text + ADDED.get(pid, "") + (" " + ADDED2[pid] if pid in ADDED2 else "")
+            text = text + ADDED.get(pid, "") + (" " + ADDED2[pid] if pid in ADDED2 else "") + (" " + ADDED3[pid] if pid in ADDED3 else "")
             checks.append({
                 "property_id": pid,
                 "quick_cmd": "./check %s --tier quick" % pid,
